@@ -2,6 +2,7 @@ import GoCrypt.Model.Scheme
 import GoCrypt.Proofs.Guards
 import GoCrypt.Gen.Facts
 import GoCrypt.Gen.Flow
+import GoCrypt.Props.MiscIR
 
 /-!
 # C15 — every generated hash carries a fresh, full-strength random salt
@@ -91,4 +92,37 @@ theorem fresh_per_call :
 #print axioms rand_source_pure
 #print axioms fresh_per_call
 
+-- the salt generators ARE the current code (Props/MiscIR.lean): hashutil.NewEncoding/Encode/Decode/IndexAnyInvalid/Rand, cryptoutil.Rand and sha1.randRounds regenerated from the source
+-- (crypto/rand as a scripted entropy reader: rand.Int(Reader, 64) = one byte & 0x3F, rand.Read = io.ReadFull) = randSymbols / the next n entropy bytes / the randRounds kernel; entropy consumed exactly
+#print axioms GoCrypt.MiscIR.no_unknown_nodes
+#print axioms GoCrypt.MiscIR.calls_are_described
+#print axioms GoCrypt.MiscIR.newEncoding_ir_eq_model
+#print axioms GoCrypt.MiscIR.newEncoding_ir_hEncAt
+#print axioms GoCrypt.MiscIR.decodeTable_outside
+#print axioms GoCrypt.MiscIR.decodeTable_inside
+#print axioms GoCrypt.MiscIR.decodeTable_ff_iff
+#print axioms GoCrypt.MiscIR.decodeTable_hash
+#print axioms GoCrypt.MiscIR.decodeTable_base64
+#print axioms GoCrypt.MiscIR.packageVars_ir
+#print axioms GoCrypt.MiscIR.packageVars_hEncAt
+#print axioms GoCrypt.MiscIR.encode_ir_eq_model
+#print axioms GoCrypt.MiscIR.decode_ir_eq_table
+#print axioms GoCrypt.MiscIR.hash_table_entry
+#print axioms GoCrypt.MiscIR.decode_ir_hash_eq_model
+#print axioms GoCrypt.MiscIR.indexAnyInvalid_ir_eq_model
+#print axioms GoCrypt.MiscIR.firstBad_eq
+#print axioms GoCrypt.MiscIR.firstInvalid_eq_indexAnyInvalid
+#print axioms GoCrypt.MiscIR.rand_ir_eq_model
+#print axioms GoCrypt.MiscIR.rand_ir_result_bytes
+#print axioms GoCrypt.MiscIR.rand_ir_panics_negative
+#print axioms GoCrypt.MiscIR.rand_ir_panics_exhausted
+#print axioms GoCrypt.MiscIR.rand_ir_panics_short
+#print axioms GoCrypt.MiscIR.shipped_alphabets_64
+#print axioms GoCrypt.MiscIR.read_short_ir_panics
+#print axioms GoCrypt.MiscIR.cryptoutil_rand_ir_eq_model
+#print axioms GoCrypt.MiscIR.cryptoutil_rand_ir_panics
+#print axioms GoCrypt.MiscIR.randRounds_ir_eq_model
+#print axioms GoCrypt.MiscIR.randRounds_ir_window
+#print axioms GoCrypt.MiscIR.randRounds_ir_panics_exhausted
+#print axioms GoCrypt.MiscIR.readOnce_is_extCall
 end GoCrypt.C15
